@@ -19,6 +19,7 @@ import (
 	"strconv"
 	"strings"
 	"testing"
+	"testing/fstest"
 
 	"github.com/titpetric/vuego"
 	"golang.org/x/net/html"
@@ -111,10 +112,19 @@ type Case struct {
 	Spell string `json:"spell,omitempty"`
 	// expr family: engine history - after the first check the same engine evaluates this many
 	// other distinct expressions, then the case is checked a second time
-	History int    `json:"history,omitempty"`
-	Wrap    string `json:"wrap,omitempty"`
-	WrapX   string `json:"wrapx,omitempty"`
-	Why     string `json:"why,omitempty"` // err family: unknown | arity | conversion | returned
+	History int `json:"history,omitempty"`
+	// expr / pipe family: "after-failure" - before the case, a template built from the case's OWN
+	// source that fails LATE (literal text and the successful case expression first, then a
+	// failing filter) is rendered in a text run and in an attribute: "fresh" on a fresh engine
+	// filled with recognisably different values (strings + "-STALE", ints + 1000), "same" on the
+	// case's engine. Nothing of the failed render may show in the case.
+	After string `json:"after,omitempty"`
+	// expr family: the engine first evaluates the expression while the registered functions it
+	// calls are NOT yet registered (it may fail), then they are registered on the same engine
+	Late  bool   `json:"late,omitempty"`
+	Wrap  string `json:"wrap,omitempty"`
+	WrapX string `json:"wrapx,omitempty"`
+	Why   string `json:"why,omitempty"` // err family: unknown | arity | conversion | returned
 }
 
 // Bind is one `v-for="Var in List"` scope; List is a root variable (see scopeLists).
@@ -234,7 +244,14 @@ type obs struct {
 // engine is one vuego instance, fresh per case and shared by the renders of that case (so the
 // documented program cache of the expression evaluator is exercised across expressions).
 type engine struct {
-	t           vuego.Template
+	t vuego.Template
+	// late engines: a *vuego.Vue over an in-memory file system, so that template functions can
+	// be registered AFTER the engine has already evaluated (and failed on) expressions
+	vue   *vuego.Vue
+	fsys  fstest.MapFS
+	data  any
+	nfile int
+
 	open, close string              // enclosing scopes of the position template
 	idx, n      int                 // which of the n rendered copies of the position is observed
 	cache       map[string]rendered // a template is rendered once per engine (all copies share it)
@@ -251,6 +268,18 @@ func newEngine(env any, text string) *engine {
 	return &engine{t: vuego.New(vuego.WithFuncs(funcMapFor(text))).Fill(env), n: 1}
 }
 
+// newLateEngine knows only vuego's own functions; see engine.registerLate.
+func newLateEngine(data any) *engine {
+	fsys := fstest.MapFS{}
+	return &engine{vue: vuego.NewVue(fsys), fsys: fsys, data: data, n: 1}
+}
+
+// registerLate registers the functions the expression needs on the engine that is already in use.
+func (e *engine) registerLate(text string) {
+	e.vue.Funcs(funcMapFor(text))
+	e.cache = nil
+}
+
 func (e *engine) render(tpl string) (string, error) {
 	r := e.renderParsed(tpl)
 	return r.out, r.err
@@ -262,7 +291,14 @@ func (e *engine) renderParsed(tpl string) rendered {
 	}
 	var b bytes.Buffer
 	r := rendered{}
-	r.err = e.t.RenderString(context.Background(), &b, tpl)
+	if e.vue != nil {
+		e.nfile++
+		name := fmt.Sprintf("t%d.vuego", e.nfile)
+		e.fsys[name] = &fstest.MapFile{Data: []byte(tpl)}
+		r.err = e.vue.RenderFragment(&b, name, e.data)
+	} else {
+		r.err = e.t.RenderString(context.Background(), &b, tpl)
+	}
 	r.out = b.String()
 	if r.err == nil {
 		r.ns, r.perr = hx.Frag(r.out, hx.Collapse)
@@ -408,10 +444,16 @@ func check(c Case) error {
 			pos = allExprPos
 		}
 		its := c.iterations(env)
-		eng := newEngine(dataOf(c.Env, env), c.Text())
+		eng, err := caseEngine(c, env)
+		if err != nil {
+			return err
+		}
 		pass := func(when string) error {
 			for j, it := range its {
 				if err := checkValue(c, it.env, eng, pos, j, its); err != nil {
+					if it.note+when == "" {
+						return err
+					}
 					return fmt.Errorf("%v;%s%s", err, it.note, when)
 				}
 			}
@@ -431,7 +473,11 @@ func check(c Case) error {
 		if len(pos) == 0 {
 			pos = pipePos
 		}
-		return checkValue(c, env, newEngine(dataOf(c.Env, env), c.Text()), pos, 0, []iteration{{env: env}})
+		eng, err := caseEngine(c, env)
+		if err != nil {
+			return err
+		}
+		return checkValue(c, env, eng, pos, 0, []iteration{{env: env}})
 	case "err":
 		if len(pos) == 0 {
 			pos = pipePos
@@ -648,6 +694,69 @@ func checkValue(c Case, env map[string]any, eng *engine, pos []string, idx int, 
 		}
 	}
 	return nil
+}
+
+// caseEngine builds the engine of a value case and applies the Late and After dimensions.
+func caseEngine(c Case, env map[string]any) (*engine, error) {
+	src, data := c.Text(), dataOf(c.Env, env)
+	var eng *engine
+	if c.Late {
+		eng = newLateEngine(data)
+		open, close := c.scopeWrap()
+		for _, p := range []string{posInterp, posIf, posBound} {
+			_, _ = eng.render(open + templateFor(p, src) + close) // may fail: the functions are not registered yet
+		}
+		eng.registerLate(src)
+	} else {
+		eng = newEngine(data, src)
+	}
+	if c.After != "" {
+		v := "a"
+		if c.Env == structEnv {
+			v = "total"
+		}
+		on := eng
+		if c.After == "fresh" {
+			on = newEngine(staleData(c.Env, env), src)
+		}
+		open, close := c.scopeWrap()
+		fail := "{{ " + v + " | failif(true) }}"
+		for _, tpl := range []string{
+			open + "<p>Dear {{ " + src + " }}, your total is " + fail + "</p>" + close,
+			open + `<p title="Dear {{ ` + attrEsc(src) + ` }} / ` + fail + `">x</p>` + close,
+		} {
+			out, err := on.render(tpl)
+			if err == nil {
+				return nil, fmt.Errorf("`%s | failif(true)` returns an error but the render of %q succeeded with %q", v, tpl, out)
+			}
+			if out != "" {
+				return nil, fmt.Errorf("the failed render of %q wrote %q", tpl, out)
+			}
+		}
+		eng.cache = nil
+	}
+	return eng, nil
+}
+
+// staleData is the environment with recognisably different values under the same names.
+func staleData(envID int, env map[string]any) any {
+	if envID == structEnv {
+		return structData()
+	}
+	out := make(map[string]any, len(env))
+	for k, v := range env {
+		switch x := v.(type) {
+		case string:
+			out[k] = x + "-STALE"
+		case int:
+			out[k] = x + 1000
+		case float64:
+			out[k] = x + 1000.5
+		default:
+			out[k] = v
+		}
+	}
+	return out
 }
 
 // warmUp renders one page with n distinct expressions v + 0 … v + (n-1) and verifies it.
@@ -898,10 +1007,17 @@ func TestProp(t *testing.T) {
 	enum = append(enum, g.enumStruct()...)
 	enum = append(enum, g.enumPointers()...)
 	enum = append(enum, g.enumExprLib()...)
+	enum = append(enum, g.enumLate()...)
 	okAll := true
 	for i, c := range enum {
 		if i%shards != shard {
 			continue
+		}
+		if (c.Fam == "expr" || c.Fam == "pipe") && i%7 == 3 {
+			c.After = []string{"fresh", "same"}[(i/7)%2] // after-failure, a rotating seventh of the cases
+		}
+		if c.Fam == "expr" && i%9 == 4 && hasRegisteredCall(*c.E) {
+			c.Late = true
 		}
 		if c.Fam == "expr" && i%97 < run.Pick(1, 3) {
 			c.History = 300 // engine history: more distinct expressions than any bounded program cache of a few hundred entries
